@@ -133,7 +133,7 @@ class ParseSource(Contract):
         return [("result==YACC_PARSE(LEX_TOKENIZE(text)) (function of the text alone)", to_val(r) == PARSE(a.text))]
 
     def result(self, a, p):
-        return fresh("ast", Val)
+        return PARSE(a.text)      # callee view: the result IS this term (a function of the text alone)
 
     def frame(self, a, p, kind, pre):
         eng = [e for e in p.effects if e[0] == "engine-object"]
@@ -231,6 +231,31 @@ class Recompile(Contract):
         d.setdefault("run_experiment", CLASS_DEFAULT_RUN)
         return d
 
+    # the text -> compiled-function map.  For C11 it only has to be SOME function of the text alone (then "behaves
+    # like a fresh evaluator of the last accepted text" holds whatever the pipeline is); that it is the DOCUMENTED
+    # pipeline is a separate clause serving C14 / C09 / C13.
+    F_template = None     # (term, src_symbol) discovered from a switching return path in verify mode
+
+    def F(self, text, a):
+        if self.callee_view or self.F_template is None:
+            return COMPILED(text)
+        term, sym = self.F_template
+        return z3.substitute(term, (sym, text))
+
+    ALLOWED_CONSTS = ("emptydict", "nokwargs", "NoneVal", "tuple0", "global:")
+
+    def free_consts(self, t):
+        out, seen, todo = set(), set(), [t]
+        while todo:
+            x = todo.pop()
+            if x.get_id() in seen:
+                continue
+            seen.add(x.get_id())
+            if z3.is_const(x) and x.decl().kind() == z3.Z3_OP_UNINTERPRETED:
+                out.add(str(x))
+            todo.extend(x.children())
+        return out
+
     def ensures(self, a, r, p):
         pre = self._pre(a, p)
         post = p.heap[a.self.oid]["attrs"]
@@ -238,18 +263,32 @@ class Recompile(Contract):
         hit = self.hit(a, pre)
         c1 = post.get("_checksum", pre["_checksum"])
         r1 = post.get("run_experiment", pre["run_experiment"])
-        unchanged = z3.And(c1 == pre["_checksum"], to_val(r1) == to_val(pre["run_experiment"]))
-        switched = z3.And(c1 == MD5HEX(UTF8(src)), to_val(r1) == COMPILED(src))
-        i0 = inv(pre["_checksum"], to_val(pre["run_experiment"]), self.acc_none, self.acc)
+        r1v = to_val(r1)
+        switched_here = r1 is not pre["run_experiment"]
+        if not self.callee_view and switched_here and self.F_template is None:
+            self.F_template = (r1v, src)
+        unchanged = z3.And(c1 == pre["_checksum"], r1v == to_val(pre["run_experiment"]))
+        fv = self.free_consts(r1v) if switched_here else set()
+        foreign = sorted(x for x in fv if x != str(src) and not x.startswith(self.ALLOWED_CONSTS))
+        switched = z3.And(c1 == MD5HEX(UTF8(src)), r1v == self.F(src, a),
+                          z3.BoolVal(self.callee_view or (switched_here and not foreign)))
+        i0 = self.inv(a, pre["_checksum"], to_val(pre["run_experiment"]), self.acc_none, self.acc)
         acc1_none = z3.And(hit, self.acc_none)
         acc1 = z3.If(hit, self.acc, src)
         out = [("no-op-on-current-text", z3.Implies(hit, unchanged)),
-               ("switches-completely", z3.Implies(z3.Not(hit), switched)),
+               ("switches-completely(checksum==md5(utf8(text)); new function depends on the text alone%s)" % (": but mentions %s" % foreign if foreign else ""),
+                z3.Implies(z3.Not(hit), switched)),
                ("returns-None", z3.BoolVal(isinstance(r, PyNoneT)) if not self.callee_view else z3.BoolVal(True)),
                ("invariant-preserved(behaves like fresh evaluator of last accepted text)",
-                z3.Implies(i0, inv(c1, to_val(r1), acc1_none, acc1))),
-               ("accepted-text-parses(not None)", z3.Implies(z3.Not(hit), PARSE(src) != NONEVAL))]
+                z3.Implies(i0, self.inv(a, c1, r1v, acc1_none, acc1))),
+               ("accepted-text-parses(not None)", z3.Implies(z3.Not(hit), PARSE(src) != NONEVAL)),
+               ("pipeline-as-documented: exec(compile(GEN(PARSE(text),expose=False)), None, fresh dict)[ast.id]",
+                z3.Implies(z3.Not(hit), r1v == COMPILED(src)))]
         return out
+
+    def inv(self, a, checksum, run, accepted_is_none, accepted):
+        return z3.Or(z3.And(accepted_is_none, checksum == z3.StringVal(""), run == CLASS_DEFAULT_RUN),
+                     z3.And(z3.Not(accepted_is_none), checksum == MD5HEX(UTF8(accepted)), run == self.F(accepted, a)))
 
     def apply_effects(self, a, p, kind):
         if kind == "return":
@@ -296,6 +335,8 @@ class Recompile(Contract):
             return ("C17",)
         if "accepted-text-parses" in name:
             return ("C06", "C11")
+        if "pipeline-as-documented" in name:
+            return ("C14", "C09", "C13", "C07")
         if "deterministic" in name or "no-global" in name:
             return ("C01", "C11", "C17")
         if "writes-only" in name:
